@@ -188,6 +188,27 @@ def semantic_cases(ctx, n):
     return out
 
 
+ARITH = [('1-2+3', 2), ('0-1+2', 1), ('2-3+2', 1), ('3-1-1', 1), ('1+2-3', 0), ('2-(1-1)', 2), ('1-(2-3)', 2), ('1+1', 2), ('3-2', 1), ('0+0', 0), ('2-2+1', 1),
+         ('1-3+3', 1), ('(1-2)+2', 1), ('0-2+4', 2)]
+
+
+def arith_cases(ctx):
+    """arithmetic in n-fold prefixes is evaluated: `e op phi` means `n op phi` for the value n of e (left-associative + and -, also
+    through negative intermediate values), for the four prefix operators in bodies and the two future ones in heads"""
+    rng = ctx.rng('arith')
+    out = []
+    for e, n in ARITH:
+        for op in ('<', '<:', '>', '>:'):
+            ctxt = lang.prog_txt(gen.context_program(rng, ['a', 'b']))
+            mk = lambda s: ctxt + '#program always.\nw :- not not &tel { %s %s a }.\n' % (s, op)
+            out.append({'raw': mk(e), 'paren': mk(str(n)), 'formula_raw': '%s %s a' % (e, op), 'formula_paren': '%d %s a' % (n, op), 'head': False})
+        for op in ('>', '>:'):
+            part = rng.choice(['initial', 'always', 'dynamic'])
+            mk = lambda s: '#program always.\n{ b }.\n#program %s.\n&tel { b | %s %s a }.\n' % (part, s, op)
+            out.append({'raw': mk(e), 'paren': mk(str(n)), 'formula_raw': 'b | %s %s a' % (e, op), 'formula_paren': 'b | %d %s a' % (n, op), 'head': True})
+    return out
+
+
 def run(ctx):
     cex, counts = [], {}
     for which, table, un, bi in (('py', 'dochead', HEAD_UN, HEAD_BIN), ('tel', 'doc', TEL_UN, TEL_BIN), ('del', 'docdel', DEL_UN, DEL_BIN)):
@@ -196,7 +217,7 @@ def run(ctx):
         counts[which] = n
         for b in bad[:5]:
             cex.append({'key': 'c07:%s:%s' % (which, b.get('term', '')), 'what': b['what'], 'input': b})
-    sem = semantic_cases(ctx, 250 if ctx.quick else 1000)
+    sem = semantic_cases(ctx, 250 if ctx.quick else 1000) + arith_cases(ctx)
     inputs = []
     for c in sem:
         inputs += [[c['raw']], [c['paren']]]
@@ -213,7 +234,7 @@ def run(ctx):
     total = sum(counts.values())
     cov = {'evaluations': total + len(inputs), 'distinct_nontrivial': total + len(nontriv), 'exhaustive': not ctx.quick,
            'rule': 'token sequences unary? a binary unary? b [binary unary? c] and stacked prefix operators over the operators of each table: TheoryParser %d, gringo tel %d, gringo del %d '
-                   '(pairs exhaustive; triples exhaustive in thorough, all binary-binary combinations + sample in quick), every sequence distinct; plus %d raw/parenthesised program pairs through the pipeline '
+                   '(pairs exhaustive; triples exhaustive in thorough, all binary-binary combinations + sample in quick), every sequence distinct; plus %d raw/parenthesised program pairs through the pipeline (among them arithmetic n-fold prefixes, also with negative intermediate values, against their value) '
                    '(non-trivial = formula whose minimal form differs from the parenthesised one and has answer sets)' % (counts['py'], counts['tel'], counts['del'], len(sem)),
            'samples': [{'raw': sem[i]['formula_raw'], 'parenthesised': sem[i]['formula_paren']} for i in (0, 1, 2)]}
     return {'counterexamples': cex[:10], 'coverage': cov}
